@@ -1496,3 +1496,245 @@ Lemma mm_facts :
   spawn_plans mm_unfixed = [(1, [2]); (2, [1])] /\ ended_made mm_unfixed = [(1, 0, [2]); (2, 0, [2])]
   /\ spawn_plans mm_fixed = [(1, [2]); (2, [1])] /\ ended_made mm_fixed = [(1, 0, [2]); (2, 0, [1])].
 Proof. repeat split; vm_compute; reflexivity. Qed.
+
+(* ====================================================================================================== *)
+(* ---------- concurrent calls: every job completes and creates precisely what its job_spawned announced ---------- *)
+Definition pkey (p : plan) : N * N := (pl_seq p, pl_mid p).
+Definition ckey (c : created) : N * N := (cr_seq c, cr_mid c).
+Definition plan_ok (pl : list plan) (l : list ev) : Prop :=
+  forall p, In p pl -> exists x, In (pl_seq p, pl_mid p, x) (msg_full l).
+Definition spawned_with (l : list ev) (j : N) (pl : list plan) : Prop :=
+  exists e stride, In e l /\ ebody e = BJobSpawned j pl stride.
+Definition made_in (l : list ev) (made : list created) : Prop :=
+  forall c, In c made -> exists e r, In e l /\ eid e = cr_ck c /\ ebody e = BCkpt r (cr_art c) (cr_seq c) (Some (cr_mid c)).
+Definition msorted (snap : list ev) : Prop := StronglySorted N.lt (map (fun m => fst (fst m)) (msg_full snap)).
+
+(* what a finished job looks like in the stream *)
+Definition ended_ok (l : list ev) (j st : N) (made : list created) : Prop :=
+  st = 0 /\ exists planned, spawned_with l j planned /\ map ckey made = map pkey (plan_sort planned) /\ made_in l made.
+Definition job_consistent (l : list ev) : Prop :=
+  forall e j st made, In e l -> ebody e = BJobEnded j st made -> ended_ok l j st made.
+
+Definition actor_ok (l : list ev) (a : astate) : Prop :=
+  match a with
+  | ASpawn _ _ plan2 _ _ => plan_ok plan2 l
+  | ADecide _ pl _ j | ASnap _ pl j => plan_ok pl l /\ spawned_with l j pl
+  | ACut _ j snap todo made =>
+      exists planned, spawned_with l j planned /\ map ckey made ++ map pkey todo = map pkey (plan_sort planned)
+                      /\ msorted snap /\ plan_ok todo snap /\ made_in l made
+  | AWrite _ j snap p _ rest made =>
+      exists planned, spawned_with l j planned /\ map ckey made ++ map pkey (p :: rest) = map pkey (plan_sort planned)
+                      /\ msorted snap /\ plan_ok (p :: rest) snap /\ made_in l made
+  | AEnd _ j status made _ => ended_ok l j status made
+  | _ => True
+  end.
+
+Lemma plan_ok_mono pl l fr : plan_ok pl l -> plan_ok pl (l ++ fr).
+Proof. intros H p Hp. destruct (H p Hp) as [x Hx]. exists x. rewrite msg_full_app. apply in_or_app. left. exact Hx. Qed.
+Lemma spawned_with_mono l fr j pl : spawned_with l j pl -> spawned_with (l ++ fr) j pl.
+Proof. intros [e [st [Hi Hb]]]. exists e, st. split; [apply in_or_app; left; exact Hi | exact Hb]. Qed.
+Lemma made_in_mono l fr made : made_in l made -> made_in (l ++ fr) made.
+Proof.
+  intros H c Hc. destruct (H c Hc) as [e [r [Hi [H1 H2]]]]. exists e, r. split; [apply in_or_app; left; exact Hi | auto].
+Qed.
+Lemma ended_ok_mono l fr j st made : ended_ok l j st made -> ended_ok (l ++ fr) j st made.
+Proof.
+  intros [H0 [pl [H1 [H2 H3]]]]. split; [exact H0|]. exists pl.
+  split; [apply spawned_with_mono, H1|]. split; [exact H2 | apply made_in_mono, H3].
+Qed.
+Lemma actor_ok_mono l fr a : actor_ok l a -> actor_ok (l ++ fr) a.
+Proof.
+  destruct a; cbn [actor_ok]; try exact (fun H => H).
+  - apply plan_ok_mono.
+  - intros [H1 H2]. split; [apply plan_ok_mono, H1 | apply spawned_with_mono, H2].
+  - intros [H1 H2]. split; [apply plan_ok_mono, H1 | apply spawned_with_mono, H2].
+  - intros [pl [H1 [H2 [H3 [H4 H5]]]]]. exists pl. split; [apply spawned_with_mono, H1|]. split; [exact H2|].
+    split; [exact H3|]. split; [exact H4 | apply made_in_mono, H5].
+  - intros [pl [H1 [H2 [H3 [H4 H5]]]]]. exists pl. split; [apply spawned_with_mono, H1|]. split; [exact H2|].
+    split; [exact H3|]. split; [exact H4 | apply made_in_mono, H5].
+  - apply ended_ok_mono.
+Qed.
+
+(* the read half of a cut succeeds whenever the planned message is in the (sorted) snapshot *)
+Lemma cut_read_ok K snap s p :
+  msorted snap -> (exists x, In (pl_seq p, pl_mid p, x) (msg_full snap)) -> exists v, cut_read K snap s p = Ok v.
+Proof.
+  intros Hs [x Hin]. apply In_nth_error in Hin. destruct Hin as [i Hn].
+  pose proof (upper_bound_nth (msg_full snap) i _ Hs Hn) as Hub. cbn [fst] in Hub.
+  unfold cut_read. destruct (select_base K (log s) snap (pl_seq p)) as [b base_to].
+  assert (Hfin : forall base bootstrap note used,
+    exists v,
+      match nth_error (msg_full snap) (upper_bound (msg_full snap) (pl_seq p) - 1) with
+      | None => Err 20
+      | Some (ls, lid, _) =>
+        if (ls =? pl_seq p) && (lid =? pl_mid p) then
+          Ok {| su_to_seq := pl_seq p; su_to_mid := Some (pl_mid p); su_base := base; su_note := note; su_kind := 2;
+                su_slice := map snd (skipn (upper_bound (msg_full snap) (if (bootstrap : bool) then 0 else base_to))
+                                           (firstn (upper_bound (msg_full snap) (pl_seq p)) (msg_full snap)));
+                su_base_used := used; su_present := true |}
+        else Err 21
+      end = Ok v).
+  { intros base bootstrap note used. rewrite Hub. replace (S i - 1)%nat with i by lia. rewrite Hn.
+    rewrite !N.eqb_refl. cbn [andb]. eexists. reflexivity. }
+  destruct (option_map ck_art b) as [a|]; [|exact (Hfin None true 0 false)].
+  destruct (art_read s a) as [v|]; [|exact (Hfin (Some a) true 2 false)].
+  destruct (su_kind v =? 1); [exact (Hfin (Some a) true 1 false) | exact (Hfin (Some a) false 0 true)].
+Qed.
+
+Lemma plan_ok_perm pl pl' l : Permutation pl' pl -> plan_ok pl l -> plan_ok pl' l.
+Proof. intros Hp H p Hin. apply H. eapply Permutation_in; [exact Hp | exact Hin]. Qed.
+
+Lemma plan_cuts_ok K stride maxnew l : plan_ok (plan_cuts K stride maxnew l) l.
+Proof. intros p Hp. eapply plan_cuts_msgs, Hp. Qed.
+
+(* one step of one actor: the stream is extended, the actor stays well-formed, and a job_ended frame it appends is ok *)
+Lemma actor_step K s a :
+  valid (log s) -> actor_ok (log s) a ->
+  exists fr, log (fst (astep K s a)) = log s ++ fr
+    /\ actor_ok (log s ++ fr) (snd (astep K s a))
+    /\ (forall e j st made, In e fr -> ebody e = BJobEnded j st made -> ended_ok (log s ++ fr) j st made).
+Proof.
+  intros Hv Ha.
+  destruct a; unfold astep; cbn [astep_gen].
+  - (* AStart *)
+    exists []. rewrite app_nil_r. split; [destruct (c_sched c); [destruct (plan_cuts K (c_stride c) (c_maxnew c) (log s))|]; reflexivity|].
+    split; [|intros e j st made []].
+    destruct (c_sched c); [destruct (plan_cuts K (c_stride c) (c_maxnew c) (log s))|]; exact I.
+  - (* ACheck *)
+    exists []. rewrite app_nil_r.
+    destruct (if c_block c then find_inflight K (log s) else None); (split; [reflexivity|]; split; [exact I | intros e j st made []]).
+  - (* ASkip *)
+    eexists. cbn [fst snd]. split; [reflexivity|]. split; [exact I|].
+    intros e j st made [<-|[]] Hb. discriminate.
+  - (* APlan *)
+    exists []. rewrite app_nil_r.
+    pose proof (plan_cuts_ok K (c_stride c) (c_maxnew c) (log s)) as Hp.
+    destruct (plan_cuts K (c_stride c) (c_maxnew c) (log s)) as [|p0 pr];
+      (split; [reflexivity|]; split; [| intros e j st made []]); [exact I | exact Hp].
+  - (* ASpawn *)
+    cbn [actor_ok] in Ha.
+    exists [{| eseq := next_seq (log s); eid := fresh_id (log s); ebody := BJobSpawned (fresh_job (log s)) plan2 (c_stride c) |}].
+    assert (Hsp : spawned_with (log s ++ [{| eseq := next_seq (log s); eid := fresh_id (log s);
+                                             ebody := BJobSpawned (fresh_job (log s)) plan2 (c_stride c) |}])
+                               (fresh_job (log s)) plan2).
+    { eexists. eexists. split; [apply in_or_app; right; left; reflexivity | reflexivity]. }
+    destruct (c_sched c); cbn [fst snd actor_ok]; (split; [reflexivity|]; split; [split; [apply plan_ok_mono, Ha | exact Hsp]|]);
+      intros e j st made [<-|[]] Hb; discriminate.
+  - (* ADecide *)
+    cbn [actor_ok] in Ha. destruct Ha as [H1 H2].
+    eexists. destruct (c_exec c); cbn [fst snd actor_ok]; (split; [reflexivity|]; split);
+      try (intros e j0 st made [<-|[]] Hb; discriminate); try exact I.
+    split; [apply plan_ok_mono, H1 | apply spawned_with_mono, H2].
+  - (* ASnap *)
+    cbn [actor_ok] in Ha. destruct Ha as [H1 H2].
+    exists []. rewrite app_nil_r. cbn [fst snd actor_ok]. split; [reflexivity|]. split; [|intros e j0 st made []].
+    exists todo. split; [exact H2|]. split; [reflexivity|]. split; [apply valid_msgs_sorted, Hv|].
+    split; [eapply plan_ok_perm; [apply plan_sort_perm | exact H1] | intros c0 []].
+  - (* ACut *)
+    cbn [actor_ok] in Ha. destruct Ha as [pl [H1 [H2 [H3 [H4 H5]]]]].
+    exists []. rewrite app_nil_r. destruct todo as [|p rest].
+    + cbn [fst snd actor_ok]. split; [reflexivity|]. split; [|intros e j0 st made0 []].
+      split; [reflexivity|]. exists pl. cbn [map] in H2. rewrite app_nil_r in H2. auto.
+    + destruct (cut_read_ok K snap s p H3 (H4 p (or_introl eq_refl))) as [v Hr]. rewrite Hr.
+      cbn [fst snd actor_ok]. split; [reflexivity|]. split; [|intros e j0 st made0 []].
+      exists pl. auto.
+  - (* AWrite *)
+    cbn [actor_ok] in Ha. destruct Ha as [pl [H1 [H2 [H3 [H4 H5]]]]].
+    cbv beta iota zeta delta [put_art]. cbn [fst snd].
+    set (s1 := {| log := log s; arts := arts s ++ [(fresh_art s, v)] |}).
+    exists [{| eseq := next_seq (log s); eid := fresh_id (log s);
+               ebody := BCkpt (rule_stride (c_stride c)) (fresh_art s) (pl_seq p) (Some (pl_mid p)) |}].
+    split; [reflexivity|]. split; [|intros e j0 st made0 [<-|[]] Hb; discriminate].
+    cbn [actor_ok]. exists pl. split; [apply spawned_with_mono, H1|]. split.
+    { rewrite map_app, <- app_assoc. cbn [map app] in *. exact H2. }
+    split; [exact H3|]. split; [intros q Hq; apply H4; right; exact Hq|].
+    intros c0 Hc0. apply in_app_or in Hc0. destruct Hc0 as [Hc0|[<-|[]]].
+    + exact (made_in_mono _ _ _ H5 c0 Hc0).
+    + eexists. exists (rule_stride (c_stride c)). split; [apply in_or_app; right; left; reflexivity|].
+      cbn [eid ebody cr_ck cr_art cr_seq cr_mid]. split; [|reflexivity].
+      unfold s1. rewrite last_id_append. reflexivity.
+  - (* AEnd *)
+    cbn [actor_ok] in Ha.
+    exists [{| eseq := next_seq (log s); eid := fresh_id (log s); ebody := BJobEnded j status made |}].
+    cbn [fst snd actor_ok]. split; [reflexivity|]. split; [exact I|].
+    intros e j0 st made0 [<-|[]] Hb. cbn [ebody] in Hb. injection Hb as <- <- <-. apply ended_ok_mono, Ha.
+  - (* AMsgStart *)
+    exists []. rewrite app_nil_r. cbn [fst snd]. split; [reflexivity|]. split; [destruct ms; exact I | intros e j st made []].
+  - (* AMsgs *)
+    destruct ms as [|[ac co] rest].
+    + exists []. rewrite app_nil_r. cbn [fst snd]. split; [reflexivity|]. split; [exact I | intros e j st made []].
+    + eexists. cbn [fst snd]. split; [reflexivity|]. split; [destruct rest; exact I|].
+      intros e j st made [<-|[]] Hb. discriminate.
+  - (* ADone *)
+    exists []. rewrite app_nil_r. cbn [fst snd]. split; [reflexivity|]. split; [exact I | intros e j st made []].
+Qed.
+
+Definition sys_ok (s : st) (acts : list astate) : Prop :=
+  valid (log s) /\ Forall (actor_ok (log s)) acts /\ job_consistent (log s).
+
+Lemma astep_valid K s a : valid (log s) -> valid (log (fst (astep K s a))).
+Proof.
+  intros Hv. destruct (astep_kind K s a) as [Hl _ | b Hl _ _ _ | p st Hl _ _ | j stt m Hl _ _]; rewrite Hl;
+    [exact Hv | apply valid_append, Hv | apply valid_append, Hv | apply valid_append, Hv].
+Qed.
+
+Lemma sys_ok_step K s pre a post :
+  sys_ok s (pre ++ a :: post) -> sys_ok (fst (astep K s a)) (pre ++ snd (astep K s a) :: post).
+Proof.
+  intros [Hv [Hf Hj]]. apply Forall_app in Hf. destruct Hf as [Hpre Hf]. inversion Hf as [|a0 l0 Ha Hpost]; subst.
+  destruct (actor_step K s a Hv Ha) as [fr [Hl [Ha' Hend]]].
+  split; [apply astep_valid, Hv|]. rewrite Hl. split.
+  - apply Forall_app. split; [|constructor; [exact Ha'|]].
+    + eapply Forall_impl; [|exact Hpre]. intros x. apply actor_ok_mono.
+    + eapply Forall_impl; [|exact Hpost]. intros x. apply actor_ok_mono.
+  - intros e j st made Hin Hb. apply in_app_or in Hin. destruct Hin as [Hin|Hin].
+    + apply ended_ok_mono. eapply Hj; eassumption.
+    + eapply Hend; eassumption.
+Qed.
+
+Theorem sys_ok_steps K x y : sys_steps K x y -> sys_ok (fst x) (snd x) -> sys_ok (fst y) (snd y).
+Proof.
+  induction 1 as [|x y z H1 H2 IH]; intros H; [exact H|]. apply IH. destruct H1. cbn [fst snd] in *.
+  apply sys_ok_step, H.
+Qed.
+
+Lemma actor_ok_start l calls : Forall (actor_ok l) (map start_of calls).
+Proof. induction calls as [|c r IH]; [constructor|]. constructor; [destruct c; exact I | exact IH]. Qed.
+
+(* every interleaving: each job that ends is `completed`, and its created list is, in ascending to_seq order, exactly
+   the plan of the job_spawned frame of the same job, every entry naming a checkpoint frame of the stream *)
+Theorem concurrent_jobs_create_announced K s calls s' acts' :
+  valid (log s) -> job_consistent (log s) ->
+  sys_steps K (s, map start_of calls) (s', acts') ->
+  job_consistent (log s').
+Proof.
+  intros Hv Hj H. apply (sys_ok_steps K _ _ H). cbn [fst snd].
+  split; [exact Hv|]. split; [apply actor_ok_start | exact Hj].
+Qed.
+
+(* non-vacuity: the race of mm_fixed starts from a valid, job-consistent state and ends with two ended jobs *)
+Lemma mm_start_ok : valid (log mm_state) /\ job_consistent (log mm_state).
+Proof.
+  split; [apply reachable_valid, valid_st0|].
+  intros e j st made Hin Hb. exfalso. vm_compute in Hin. destruct Hin as [<-|[<-|[<-|[]]]]; discriminate.
+Qed.
+
+Lemma run_fine_steps K : forall schedule s acts, sys_steps K (s, acts) (run_fine (astep K) s acts schedule).
+Proof.
+  induction schedule as [|i rest IH]; intros s acts; cbn [run_fine]; [apply sys_refl|].
+  destruct (nth_error acts (N.to_nat i)) as [a|] eqn:E; [|apply IH].
+  destruct (set_nth_split acts (N.to_nat i) a (snd (astep K s a)) E) as [pre [post [-> Es]]].
+  pose proof (astep_steps K s pre a post) as H1. destruct (astep K s a) as [s1 a1]. cbn [fst snd] in *.
+  rewrite Es. eapply sys_steps_trans; [exact H1 | apply IH].
+Qed.
+
+Lemma mm_fixed_consistent : job_consistent mm_fixed /\ length (ended_made mm_fixed) = 2%nat.
+Proof.
+  split; [|vm_compute; reflexivity]. unfold mm_fixed.
+  pose proof (run_fine_steps real_consts mm_schedule mm_state mm_actors) as H.
+  destruct (run_fine (astep real_consts) mm_state mm_actors mm_schedule) as [s' acts'] eqn:E. cbn [fst].
+  destruct mm_start_ok as [Hv Hj].
+  exact (concurrent_jobs_create_announced real_consts mm_state
+           [SCall {| c_sched := true; c_stride := 1; c_maxnew := 1; c_block := false; c_exec := true |};
+            SCall {| c_sched := false; c_stride := 1; c_maxnew := 1; c_block := false; c_exec := true |}] s' acts' Hv Hj H).
+Qed.
